@@ -73,7 +73,11 @@ fn compare(spec: &NodeSpec, a: &Out, b: &Out, t: u64, m_hist: f64, m_flow: f64, 
     let kind = spec.kind;
     let n = spec.params.p1;
     let tau = tau(t);
+    // below the normal range the f64 grid (spacing 4.9e-324) is coarser than tau*M: never demand
+    // agreement finer than a few grid steps
+    let floor = f64::from_bits(64);
     let within = |d: f64, tol: f64, what: &'static str| -> Cmp {
+        let tol = tol.max(floor);
         let ratio = if tol > 0.0 { d / tol } else if d == 0.0 { 0.0 } else { f64::INFINITY };
         Cmp { ok: d <= tol, skipped: false, ratio, what }
     };
